@@ -73,7 +73,9 @@ func (m *model) lookup(p string) (vals []string, set, null bool) {
 	c := m.c
 	switch p {
 	case "@", "*":
-		return append([]string(nil), c.Args...), true, len(c.Args) == 0
+		// with one positional parameter $@ / $* are null exactly when it is (bash and
+		// dash agree); without any, both shells call them null for the colon forms
+		return append([]string(nil), c.Args...), true, len(c.Args) == 0 || (len(c.Args) == 1 && c.Args[0] == "")
 	case "#":
 		return []string{strconv.Itoa(len(c.Args))}, true, false
 	case "?":
@@ -257,8 +259,14 @@ func (m *model) expandParam() []field {
 		return []field{{{Text: strconv.Itoa(utf8.RuneCountInString(vals[0])), Quoted: quoted}}}
 	}
 	if multi {
-		m.skip = "operator applied to $@ / $* (beyond the pinned rows)"
-		return nil
+		switch {
+		case len(c.Args) >= 2:
+			m.skip = "operator applied to $@ / $* with several positional parameters (beyond the pinned rows)"
+			return nil
+		case len(c.Args) == 0 && !strings.HasPrefix(c.Op, ":"):
+			m.skip = "non-colon operator on $@ / $* without positional parameters (bash: unset, dash: null)"
+			return nil
+		}
 	}
 	colon := strings.HasPrefix(c.Op, ":")
 	useWord := !set || (colon && null)
